@@ -24,6 +24,7 @@ warnings.filterwarnings("ignore")
 MODULES = {
     "C01": ("mcx.checks.c01", {"pid": "C01"}),
     "C05": ("mcx.checks.c01", {"pid": "C05"}),
+    "C02": ("mcx.checks.c02", {}),
     "C03": ("mcx.checks.c03", {}),
     "C04": ("mcx.checks.c04", {}),
     "C06": ("mcx.checks.c06", {}),
@@ -31,10 +32,12 @@ MODULES = {
     "C08": ("mcx.checks.c08", {}),
     "C09": ("mcx.checks.c09", {}),
     "C10": ("mcx.checks.c10", {}),
+    "C11": ("mcx.checks.c11", {}),
     "C12": ("mcx.checks.c12", {}),
     "C13": ("mcx.checks.c13", {}),
     "C14": ("mcx.checks.c14", {}),
     "C15": ("mcx.checks.c15", {}),
+    "C16": ("mcx.checks.c16", {}),
     "C17": ("mcx.checks.c17", {}),
     "C19": ("mcx.checks.c19", {}),
 }
@@ -57,8 +60,15 @@ def determinism(pid, mod):
     process; the three logs must be identical."""
     if not hasattr(mod, "probe"):
         return True
-    a = mod.probe()
-    b = mod.probe()
+    def safe():
+        # an exception inside the probe scenario is an observation like any other (the check
+        # itself decides whether it is a violation); only NON-determinism is an infrastructure error
+        try:
+            return mod.probe()
+        except Exception as ex:
+            return "EXC:%s:%s" % (type(ex).__name__, ex)
+    a = safe()
+    b = safe()
     env = dict(os.environ)
     out = subprocess.run([sys.executable, os.path.abspath(__file__), "probe", pid], env=env,
                          capture_output=True, text=True, timeout=600)
@@ -86,7 +96,11 @@ def main(argv):
         return 0
     if len(argv) >= 3 and argv[1] == "probe":
         mod, kwargs = load(argv[2])
-        print("PROBE:" + mod.probe())
+        try:
+            out = mod.probe()
+        except Exception as ex:
+            out = "EXC:%s:%s" % (type(ex).__name__, ex)
+        print("PROBE:" + out)
         return 0
     if len(argv) < 2 or argv[1] not in MODULES:
         print(__doc__)
